@@ -448,4 +448,70 @@ def rule_time_and_order(ck):
     c14.rule_row_order(ck)
 
 
-RULES = [rule_dispatch, rule_slots, rule_kinds, rule_rollover, rule_rank, rule_records, rule_time_and_order]
+ALLOWED_LABEL_METHODS = ('lower', 'upper', 'strip', 'casefold', 'lstrip', 'rstrip', 'startswith')
+
+
+def header_predicates(P, f):
+    """(call or test node, helper body nodes) for every row-skipping test inside the record loops of reader f: the tests of
+    `if <...>: continue` statements that come before the row is decoded, with the nested helpers / lambdas they call"""
+    out = []
+    helpers = {}
+    for q, h in P.funcs.items():
+        if h.parent is f:
+            helpers[h.node.name] = list(ast.walk(h.node))
+    for n in all_nodes(f):
+        if isinstance(n, ast.Assign) and len(n.targets) == 1 and isinstance(n.targets[0], ast.Name) and isinstance(n.value, ast.Lambda):
+            helpers[n.targets[0].id] = list(ast.walk(n.value.body))
+    for n in all_nodes(f):
+        if isinstance(n, ast.If) and n.body and isinstance(n.body[-1], ast.Continue) and in_loop(n, f.node) is not None:
+            nodes = list(ast.walk(n.test))
+            used = False
+            for c in list(nodes):
+                if isinstance(c, ast.Call) and isinstance(c.func, ast.Name) and c.func.id in helpers:
+                    nodes += helpers[c.func.id]
+                    used = True
+            txt = u(n.test).lower()
+            if used or 'header' in txt or "[0]" in txt:
+                out.append((n, nodes))
+    return out
+
+
+def rule_header(ck):
+    """D2.header: a row is taken for the header only because its first field IS a known column label (equality / membership against
+    string literals, case or blanks folded).  A heuristic on the shape of the field ("does not look like a number") also swallows
+    well-formed records - a longitude written 2.5e-05 or +12.5 - and every later event moves up one place."""
+    P = ck.prog
+    ck.clause('D2')
+    n = 0
+    for q in ('csep.utils.readers.csep_ascii', 'csep.utils.readers.jma_csv', 'csep.core.catalogs.CSEPCatalog.load_ascii_catalogs'):
+        f = P.funcs.get(q)
+        if f is None:
+            continue
+        for test, nodes in header_predicates(P, f):
+            n += 1
+            o = ck.ob('C19-D2.header', f, test.test, test)
+            bad = None
+            for x in nodes:
+                if isinstance(x, ast.Call):
+                    nm = x.func.attr if isinstance(x.func, ast.Attribute) else (x.func.id if isinstance(x.func, ast.Name) else '?')
+                    if isinstance(x.func, ast.Attribute) and nm in ALLOWED_LABEL_METHODS:
+                        continue
+                    if isinstance(x.func, ast.Name) and any(h.parent is f and h.node.name == nm for h in P.funcs.values()):
+                        continue
+                    if isinstance(x.func, ast.Name) and nm in [a_.targets[0].id for a_ in all_nodes(f) if isinstance(a_, ast.Assign) and len(a_.targets) == 1
+                                                               and isinstance(a_.targets[0], ast.Name) and isinstance(a_.value, ast.Lambda)]:
+                        continue
+                    if nm in ('all', 'any', 'len', 'bool'):
+                        continue
+                    bad = bad or x
+                if isinstance(x, ast.Compare) and any(isinstance(op, (ast.Eq, ast.NotEq, ast.In, ast.NotIn)) for op in x.ops):
+                    sides = [x.left] + list(x.comparators)
+                    if '[0]' in u(x) and not any(isinstance(const_value(s_), (str, tuple, list)) for s_ in sides):
+                        bad = bad or x
+            (o.fail('the header is recognised through `%s`, not by comparing the first field with the column label: a record whose first field '
+                    'has an unusual but legal spelling (2.5e-05, +12.5) is taken for a header and silently dropped' % u(bad)[:70]) if bad is not None
+             else o.ok('first field compared with a literal label'))
+    ck.extra['header_tests'] = n
+
+
+RULES = [rule_dispatch, rule_slots, rule_kinds, rule_rollover, rule_rank, rule_records, rule_time_and_order, rule_header]
